@@ -1,17 +1,48 @@
 (* L2: the properties' conclusions evaluated on the implementation's outputs.
-   One line per (case, property):  <lineno> \t L2 \t <prop> \t ok|FAIL|skip|known \t <detail> *)
+   One line per (case, property):  <lineno> \t L2 \t <prop> \t ok|FAIL|skip|known \t <detail>
+   "known" carries the class name listed in known-findings.txt.  These checkers speak
+   about the implementation's observable results only; the model's functions are used
+   where the property itself refers to a notion the library defines (display width,
+   break opportunities, split points). *)
 open Model
 open Util
 
-let say lineno prop status detail = Printf.printf "%d\tL2\t%s\t%s\t%s\n" lineno prop status detail
+let cur_line = ref 0
+let say prop status detail = Printf.printf "%d\tL2\t%s\t%s\t%s\n" !cur_line prop status detail
 
+(* ------------------------------------------------------------------ helpers *)
+let n1 = n_of_int 1
 let sum_cw (v : str) : n = List.fold_left (fun acc c -> N.add acc (cw c)) N0 v
 let n_le a b = N.leb a b
+let n_lt a b = N.ltb a b
+let is_sp c = N.eqb c sP
+let rec take k l = if k <= 0 then [] else match l with [] -> [] | x :: r -> x :: take (k - 1) r
+let rec drop k l = if k <= 0 then l else match l with [] -> [] | _ :: r -> drop (k - 1) r
+let rec is_prefix (p : str) (s : str) = match p, s with [], _ -> true | x :: p', y :: s' -> x = y && is_prefix p' s' | _ -> false
+let strip_prefix p s = if is_prefix p s then Some (drop (List.length p) s) else None
+let ends_sp (s : str) = match List.rev s with c :: _ -> is_sp c | [] -> false
+let last_opt l = match List.rev l with x :: _ -> Some x | [] -> None
+let dwm (s : str) = dw cw s
+let nzv (s : str) = List.length (List.filter (fun c -> n_lt N0 (cw c)) (strip s))
+let top_level (s : str) = (final_state Normal s = Normal)
+let int_blen s = int_of_n (blen s)
+let has_esc (s : str) = List.exists (fun c -> N.eqb c eSC) s
 
 let dgroups (f : string) : (int * int) list =
   List.map (fun t -> match split_on '+' t with [a; b] -> (int_of_string a, int_of_string b) | _ -> failwith "bad group") (dlist f)
 
-(* C06: non-empty contiguous runs covering 0..n; the empty input gives one empty line *)
+type ol = { kind : string; off : int; txt : str }
+let doline (t : string) : ol =
+  match String.index_opt t ':' with
+  | None -> failwith ("bad oline " ^ t)
+  | Some i ->
+      let head = String.sub t 0 i and body = String.sub t (i + 1) (String.length t - i - 1) in
+      { kind = String.sub head 0 1; off = (if String.length head > 1 then int_of_string (String.sub head 1 (String.length head - 1)) else -1); txt = ds body }
+let dolines (f : string) : ol list = List.map doline (dlist f)
+let bad impl = impl = "PANIC" || impl = "HANG" || impl = "ERR" || (String.length impl >= 7 && String.sub impl 0 7 = "UNKNOWN") || (String.length impl >= 15 && String.sub impl 0 15 = "CUSTOM-MISMATCH")
+let parts impl = split_on '\t' impl
+
+(* ------------------------------------------------------------------ C06 / C07 / C03 on fragment lists *)
 let partition_ok (n : int) (gs : (int * int) list) : string option =
   if n = 0 then (if gs = [(0, 0)] then None else Some "empty input must give exactly one empty line")
   else
@@ -23,30 +54,659 @@ let partition_ok (n : int) (gs : (int * int) list) : string option =
           else go (pos + len) r in
     go 0 gs
 
-let is_bad impl = impl = "PANIC" || impl = "HANG" || String.length impl >= 7 && String.sub impl 0 7 = "UNKNOWN"
+let q0 = { qnum = Z0; qden = XH }
+let qle a b = not (qltb b a)
+let fq (x : Obj.t) : q = Obj.obj x
+let c03_pre (fs : frag list) (lws : Obj.t list) : bool =
+  List.length lws <= 2
+  && List.for_all (fun f -> qle q0 (fq f.fw) && qle q0 (fq f.fws) && qle q0 (fq f.fpen)) fs
+  && (let rec ok = function a :: (b :: _ as r) -> qle (fq a.fpen) (fq b.fw) && ok r | _ -> true in ok fs)
 
-let run (lineno : int) (lbc : str -> n list) ofit (args : string array) (impl : string) : unit =
-  let f i = args.(i) in
-  let say = say lineno in
-  (* C04: every op — the implementation returned normally *)
-  if impl = "PANIC" || impl = "HANG" then say "C04" "FAIL" ("implementation " ^ impl)
-  else if List.mem "PANIC" (split_on '\t' impl) then say "C04" "FAIL" "implementation PANIC"
-  else say "C04" "ok" "";
-  match f 0 with
-  | "dw" when not (is_bad impl) ->
-      let t = ds (f 1) in
-      let d = n_of_dec impl in
-      if not (n_le d (blen t)) then say "C10" "FAIL" "display_width exceeds the byte length"
-      else (match wf_strip t with
-            | Some v -> if N.eqb d (sum_cw v) then say "C10" "ok" "wf"
-                        else say "C10" "FAIL" ("well-formed text: expected " ^ dec_of_n (sum_cw v))
-            | None -> say "C10" "ok" "not-wf")
-  | ("ff" | "of") when not (is_bad impl) ->
-      if impl = "ERR" then say "C06" "skip" "overflow error"
-      else begin
-        let n = List.length (dlist (f 1)) in
-        match partition_ok n (dgroups impl) with
-        | None -> say "C06" "ok" ""
-        | Some why -> say "C06" "FAIL" why
+let groups_of (fs : 'a list) (gs : (int * int) list) : 'a list list =
+  List.map (fun (off, len) -> take len (drop off fs)) gs
+
+let check_frag_op (op : string) (f : int -> string) (impl : string) =
+  let fs = List.map (dfrag_with qconv) (dlist (f 1)) and lws = List.map qconv (dlist (f 2)) in
+  let n = List.length fs in
+  if impl = "ERR" then begin
+    say "C06" "skip" "overflow error";
+    if all_int [f 1; f 2] then say "C04" "FAIL" "optimal-fit reported overflow for usize-valued widths"
+  end else begin
+    let gs = dgroups impl in
+    (match partition_ok n gs with
+     | None -> say "C06" "ok" ""
+     | Some why -> say "C06" "FAIL" why);
+    if partition_ok n gs = None then begin
+      if op = "ff" then begin
+        if greedy_b numQ (fun x -> x) lws (groups_of fs gs) then say "C07" "ok" ""
+        else say "C07" "FAIL" "the implementation's lines are not the greedy arrangement"
+      end else begin
+        let p = dpen (f 3) in
+        if n = 0 then say "C03" "ok" "empty"
+        else if c03_pre fs lws then begin
+          let ranges = List.map (fun (a, l) -> (nat_of_int a, nat_of_int (a + l))) gs in
+          let ci = fq (arrangement_cost numQ p fs lws ranges) and co = fq (opt_cost numQ p fs lws) in
+          let ffg = first_fit numQ (fun x -> x) fs lws in
+          let ffr = (let off = ref 0 in List.map (fun g -> let l = List.length g in let r = (nat_of_int !off, nat_of_int (!off + l)) in off := !off + l; r) ffg) in
+          let cf = if n = 0 then ci else fq (arrangement_cost numQ p fs lws ffr) in
+          if not (qeq_bool ci co) then say "C03" "FAIL" "cost of the returned arrangement exceeds the minimum over all arrangements"
+          else if qltb cf ci then say "C03" "FAIL" "first-fit arrangement is cheaper"
+          else say "C03" "ok" ""
+        end else say "C03" "skip" "outside the precondition"
       end
-  | _ -> ()
+    end
+  end
+
+(* recorded optimal-fit partitions at the wrap level (C03, C06): key pen#w:ws:p,...@lw,lw = lens *)
+let check_records (recf : string) =
+  if recf <> "-" then
+    List.iter
+      (fun kv ->
+        match split_on '=' kv with
+        | [k; v] ->
+            (match split_on '#' k with
+             | [pen; rest] ->
+                 (match split_on '@' rest with
+                  | [ws; lws] ->
+                      let p = dpen pen in
+                      let fs = List.map (dfrag_with qconv) (dlist ws) and lw = List.map qconv (dlist lws) in
+                      let lens = List.map int_of_string (dlist v) in
+                      let gs = (let off = ref 0 in List.map (fun l -> let r = (!off, l) in off := !off + l; r) lens) in
+                      let n = List.length fs in
+                      (match partition_ok n gs with
+                       | Some why -> say "C06" "FAIL" ("wrap-level optimal-fit partition: " ^ why)
+                       | None ->
+                           say "C06" "ok" "wrap-level";
+                           if n = 0 then say "C03" "ok" "empty"
+                           else if c03_pre fs lw then begin
+                             let ranges = List.map (fun (a, l) -> (nat_of_int a, nat_of_int (a + l))) gs in
+                             let ci = fq (arrangement_cost numQ p fs lw ranges) and co = fq (opt_cost numQ p fs lw) in
+                             if qeq_bool ci co then say "C03" "ok" "wrap-level"
+                             else say "C03" "FAIL" ("wrap-level paragraph arrangement is not minimum-cost: " ^ kv)
+                           end else say "C03" "skip" "outside the precondition")
+                  | _ -> ())
+             | _ -> ())
+        | _ -> ())
+      (split_on '|' recf)
+
+(* ------------------------------------------------------------------ C01: lines are in-order slices *)
+let gap_chars_ok (le : str) (g : str) : bool =
+  (* only ASCII spaces and complete line-ending sequences *)
+  let rec go = function
+    | [] -> true
+    | c :: r when is_sp c -> go r
+    | l -> (match strip_prefix le l with Some r -> go r | None -> false) in
+  go g
+
+let c01_check (o : options) (text : str) (lines : ol list) : string option =
+  let le = le_str o.o_le in
+  let tarr = Array.of_list text in
+  let n = Array.length tarr in
+  let boff = Array.make (n + 1) 0 in
+  for i = 0 to n - 1 do boff.(i + 1) <- boff.(i) + int_of_n (utf8_len tarr.(i)) done;
+  let sub a b = Array.to_list (Array.sub tarr a (b - a)) in
+  let matches_at s (sl : str) = (s + List.length sl <= n) && sub s (s + List.length sl) = sl in
+  let nlines = List.length lines in
+  let larr = Array.of_list lines in
+  let failed = Hashtbl.create 64 in
+  let why = ref "" in
+  let rec go idx pos =
+    if Hashtbl.mem failed (idx, pos) then false
+    else if idx = nlines then begin
+      if gap_chars_ok le (sub pos n) then true else (why := "characters other than spaces and line endings are lost after the last line"; false)
+    end else begin
+      let l = larr.(idx) in
+      let ind = if idx = 0 then o.o_ii else o.o_si in
+      let res =
+        match strip_prefix ind l.txt with
+        | None -> why := Printf.sprintf "line %d does not start with its indent" idx; false
+        | Some body ->
+            let cands =
+              (body, false)
+              :: (match o.o_spl, List.rev body with
+                  | SplNone, _ -> []
+                  | _, c :: rb when N.eqb c hY -> [(List.rev rb, true)]
+                  | _ -> []) in
+            List.exists
+              (fun (sl, inserted) ->
+                let len = List.length sl in
+                (* candidate start positions: pos, pos+1, ... while only spaces and line-ending
+                   characters are skipped; the skipped part must be a legal gap *)
+                let rec try_from s =
+                  if s > n then false
+                  else begin
+                    let ok_here =
+                      gap_chars_ok le (sub pos s)
+                      && matches_at s sl
+                      && (let cow_ok =
+                            if ind = [] && not inserted then
+                              (l.kind = "B" && l.off = boff.(s)) || (l.kind = "S" && (sl = [] || text = []))
+                            else true in
+                          if not cow_ok then (why := Printf.sprintf "line %d is not a borrowed sub-slice at its place in the buffer" idx; false) else true)
+                      && (if ends_sp sl && not (o.o_sep = SepUnicode && (o.o_bw || o.o_spl = SplCustom)) then
+                            (why := Printf.sprintf "slice of line %d ends in a space" idx; false) else true)
+                      && go (idx + 1) (s + len) in
+                    if ok_here then true
+                    else if s < n && (is_sp tarr.(s) || N.eqb tarr.(s) cR || N.eqb tarr.(s) lF) then try_from (s + 1)
+                    else false
+                  end in
+                try_from pos)
+              cands in
+      if not res then begin
+        Hashtbl.replace failed (idx, pos) ();
+        if !why = "" then why := Printf.sprintf "line %d is not a slice of the text following line %d" idx (idx - 1)
+      end;
+      res
+    end in
+  if go 0 0 then None else Some !why
+
+(* ------------------------------------------------------------------ words *)
+let word_concat (ws : word list) : str = List.concat_map (fun w -> w.w_word @ w.w_ws) ws
+let word_starts (ws : word list) : int list =
+  let rec go pos = function [] | [_] -> [] | w :: r -> let p = pos + List.length w.w_word + List.length w.w_ws in p :: go p r in
+  go 0 ws
+
+let lossless_check (line : str) (ws : word list) : string option =
+  if word_concat ws <> line then Some "concatenating word+whitespace does not reproduce the line"
+  else if List.exists (fun w -> List.exists (fun c -> not (is_sp c)) w.w_ws) ws then Some "whitespace part contains a non-space"
+  else if List.exists (fun w -> ends_sp w.w_word) ws then Some "a word ends in a space"
+  else if List.exists (fun w -> w.w_pen <> []) ws then Some "a penalty is set"
+  else if List.exists (fun w -> not (N.eqb w.w_width (dwm w.w_word))) ws then Some "cached width differs from the display width"
+  else None
+
+(* expected Unicode boundaries: opportunities of the stripped line (minus end of text,
+   minus those after '-' / SHY), each mapped to the first top-level position of the
+   original line whose stripped byte offset equals it *)
+let unicode_expected_starts (lbc : str -> n list) (line : str) : int list =
+  let stripped = strip line in
+  let total = blen stripped in
+  let before (o : n) : n option =
+    let rec go acc prev = function
+      | _ when N.eqb acc o -> prev
+      | [] -> None
+      | c :: r -> go (N.add acc (utf8_len c)) (Some c) r in
+    go N0 None stripped in
+  let opps =
+    List.filter
+      (fun o -> n_lt o total && (match before o with Some c -> not (N.eqb c hY || N.eqb c sHY) | None -> true))
+      (lbc stripped) in
+  (* positions: walk the line with the machine *)
+  let arr = Array.of_list line in
+  let res = ref [] and st = ref Normal and sidx = ref N0 and pending = ref opps and start_min = ref 0 in
+  Array.iteri
+    (fun i c ->
+      (match !st, !pending with
+       | Normal, o :: rest when N.eqb !sidx o && i >= !start_min -> res := i :: !res; pending := rest
+       | _ -> ());
+      let (s', v) = step !st c in
+      if v then sidx := N.add !sidx (utf8_len c);
+      st := s')
+    arr;
+  List.rev !res
+
+(* ------------------------------------------------------------------ C13 precondition *)
+(* every sequence is a well-formed SGR (CSI ... m) or OSC 8 hyperlink; every maximal run
+   of sequences touches a non-space character; with the hyphen splitter it does not
+   touch a hyphen *)
+let c13_attached (hyphen : bool) (t : str) : bool =
+  match wf_strip t with
+  | None -> false
+  | Some _ ->
+      let arr = Array.of_list t in
+      let n = Array.length arr in
+      let ok = ref true in
+      let i = ref 0 in
+      let st = ref Normal in
+      while !i < n do
+        if N.eqb arr.(!i) eSC && !st = Normal then begin
+          (* run of sequences from i to j-1 *)
+          let j = ref !i in
+          let continue = ref true in
+          while !continue && !j < n do
+            if !st = Normal && not (N.eqb arr.(!j) eSC) then continue := false
+            else begin
+              let kind_start = (!st = Normal) in
+              if kind_start then begin
+                (* classify the sequence: CSI must end in 'm'; OSC must start with "8;" *)
+                if !j + 1 < n && N.eqb arr.(!j + 1) lBRACK then begin
+                  let k = ref (!j + 2) in
+                  while !k < n && not (is_final arr.(!k)) do incr k done;
+                  if !k >= n || int_of_n arr.(!k) <> 0x6d then ok := false
+                end else if !j + 3 < n && N.eqb arr.(!j + 1) rBRACK then begin
+                  if not (int_of_n arr.(!j + 2) = 0x38 && int_of_n arr.(!j + 3) = 0x3b) then ok := false
+                end else ok := false
+              end;
+              st := fst (step !st arr.(!j));
+              incr j
+            end
+          done;
+          let before = if !i > 0 then Some arr.(!i - 1) else None and after = if !j < n then Some arr.(!j) else None in
+          let nonspace = function Some c -> not (is_sp c) && not (N.eqb c lF) && not (N.eqb c cR) | None -> false in
+          if not (nonspace before || nonspace after) then ok := false;
+          let is_hy = function Some c -> N.eqb c hY | None -> false in
+          if hyphen && (is_hy before || is_hy after) then ok := false;
+          i := !j
+        end else begin
+          st := fst (step !st arr.(!i));
+          incr i
+        end
+      done;
+      !ok
+
+(* sequences of a string, in order (only meaningful when it ends at top level) *)
+let sequences (t : str) : str list =
+  let res = ref [] and cur = ref [] and st = ref Normal in
+  List.iter
+    (fun c ->
+      let (s', v) = step !st c in
+      if not v then cur := c :: !cur;
+      if s' = Normal && !cur <> [] then (res := List.rev !cur :: !res; cur := []);
+      st := s')
+    t;
+  if !cur <> [] then res := List.rev !cur :: !res;
+  List.rev !res
+
+(* ------------------------------------------------------------------ additivity (the D6 class) *)
+let additive (lbc : str -> n list) (o : options) (p : str) : bool =
+  let ws = find_words cw lbc o.o_sep p in
+  match split_words cw (split_points alnum custom3 o.o_spl) ws with
+  | None -> true
+  | Some sws ->
+      let total = List.fold_left (fun acc w -> N.add acc (N.add w.w_width (blen w.w_ws))) N0 sws in
+      let lastws = (match last_opt sws with Some w -> blen w.w_ws | None -> N0) in
+      N.eqb (N.sub total lastws) (dwm (trim_end_sp p))
+
+let default_pen p = (p = default_penalties)
+
+(* ------------------------------------------------------------------ dedent / indent specs *)
+let str_lines (s : str) : str list = lines s
+let rec lcp (a : str) (b : str) : str = match a, b with x :: a', y :: b' when x = y -> x :: lcp a' b' | _ -> []
+let lead_ws (l : str) : str = take_ws l
+let nonblank (l : str) = has_nonws l
+let margin (ls : str list) : str =
+  match List.filter nonblank ls with
+  | [] -> []
+  | l :: r -> List.fold_left (fun m x -> lcp m (lead_ws x)) (lead_ws l) r
+let dedent_spec (s : str) : str =
+  let ls = str_lines s in
+  let m = margin ls in
+  let body = List.concat_map (fun l -> (if nonblank l then drop (List.length m) l else []) @ [lF]) ls in
+  if ends_with s [lF] then body else (match List.rev body with _ :: r -> List.rev r | [] -> [])
+let indent_spec (s : str) (p : str) : str =
+  let ls = split_terminator_lf s in
+  join [lF] (List.map (fun l -> (if nonblank l then p else trim_end p) @ l) ls) @ (if ends_with s [lF] then [lF] else [])
+
+(* ------------------------------------------------------------------ the dispatcher *)
+let run (lineno : int) (lbc : str -> n list) ofit (args : string array) (impl : string) (recf : string) : unit =
+  cur_line := lineno;
+  let f i = args.(i) in
+  let ps = parts impl in
+  (* C04: every op — the implementation returned normally *)
+  if List.exists (fun p -> p = "PANIC" || p = "HANG") ps then say "C04" "FAIL" ("implementation " ^ (if List.mem "HANG" ps then "HANG" else "PANIC"))
+  else if List.exists (fun p -> String.length p >= 15 && String.sub p 0 15 = "CUSTOM-MISMATCH") ps then
+    say "C06" "FAIL" "built-in OptimalFit and the recorded wrap_optimal_fit disagree"
+  else say "C04" "ok" "";
+  if List.exists bad ps && not (f 0 = "of" && impl = "ERR") then ()
+  else begin
+    check_records recf;
+    match f 0 with
+    | "dw" ->
+        let t = ds (f 1) in
+        let d = n_of_dec impl in
+        if not (n_le d (blen t)) then say "C10" "FAIL" "display_width exceeds the byte length"
+        else (match wf_strip t with
+              | Some v -> if N.eqb d (sum_cw v) then say "C10" "ok" "wf"
+                          else say "C10" "FAIL" ("well-formed text: expected " ^ dec_of_n (sum_cw v))
+              | None -> say "C10" "ok" "not-wf")
+    | "ff" | "of" -> check_frag_op (f 0) f impl
+    | "fwa" ->
+        let line = ds (f 1) and ws = dwords impl in
+        (match lossless_check line ws with
+         | Some why -> say "C11" "FAIL" why
+         | None ->
+             let arr = Array.of_list line in
+             let expect = List.filter (fun p -> p > 0 && is_sp arr.(p - 1) && not (is_sp arr.(p))) (List.init (Array.length arr) (fun i -> i)) in
+             if word_starts ws = expect && List.for_all (fun w -> w.w_word @ w.w_ws <> []) ws then say "C11" "ok" ""
+             else say "C11" "FAIL" "ASCII boundaries are not exactly the space/non-space transitions")
+    | "fwu" ->
+        let line = ds (f 1) and ws = dwords impl in
+        (match lossless_check line ws with
+         | Some why -> say "C11" "FAIL" why
+         | None ->
+             let expect = unicode_expected_starts lbc line in
+             let starts = word_starts ws in
+             if starts <> expect then say "C11" "FAIL" "Unicode boundaries are not the mapped UAX#14 opportunities"
+             else if List.exists (fun p -> not (top_level (take p line))) starts then say "C11" "FAIL" "a boundary falls inside an escape sequence"
+             else say "C11" "ok" "")
+    | "hp" ->
+        let w = ds (f 1) in
+        let arr = Array.of_list w in
+        let n = Array.length arr in
+        let expect = ref [] and off = ref 0 in
+        for i = 0 to n - 1 do
+          if N.eqb arr.(i) hY && i > 0 && i + 1 < n && alnum arr.(i - 1) && alnum arr.(i + 1) then expect := (!off + 1) :: !expect;
+          off := !off + int_of_n (utf8_len arr.(i))
+        done;
+        if List.map int_of_string (dlist impl) = List.rev !expect then say "C12" "ok" "hp"
+        else say "C12" "FAIL" "hyphen split points are not exactly the positions after '-' with alphanumeric neighbours"
+    | "sw" ->
+        let inw = dwords (f 2) and outw = dwords impl in
+        let k = (match f 1 with "n" -> SplNone | "h" -> SplHyphen | _ -> SplCustom) in
+        (* re-group the output per input word by consuming characters *)
+        let rec per (ins : word list) (outs : word list) : string option =
+          match ins with
+          | [] -> if outs = [] then None else Some "extra pieces"
+          | w :: rest ->
+              let pts = List.map int_of_n (split_points alnum custom3 k w.w_word) in
+              let npieces = List.length pts + 1 in
+              let mine = take npieces outs and others = drop npieces outs in
+              if List.length mine <> npieces then Some "wrong number of pieces"
+              else if List.concat_map (fun p -> p.w_word) mine <> w.w_word then Some "pieces do not concatenate to the word"
+              else begin
+                let cum = ref 0 and bad = ref None in
+                List.iteri
+                  (fun i p ->
+                    cum := !cum + int_blen p.w_word;
+                    let lastp = (i = npieces - 1) in
+                    if not (N.eqb p.w_width (dwm p.w_word)) then bad := Some "piece width is not its display width";
+                    if lastp then begin
+                      if p.w_ws <> w.w_ws || p.w_pen <> w.w_pen then bad := Some "last piece does not carry the word's whitespace and penalty"
+                    end else begin
+                      if List.nth pts i <> !cum then bad := Some "cut is not at the split point";
+                      if p.w_ws <> [] then bad := Some "inner piece has whitespace";
+                      let before = List.concat_map (fun q -> q.w_word) (take (i + 1) mine) in
+                      let need = not (match last_opt before with Some c -> N.eqb c hY | None -> false) in
+                      if p.w_pen <> (if need then [hY] else []) then bad := Some "hyphen penalty is wrong"
+                    end)
+                  mine;
+                match !bad with Some b -> Some b | None -> per rest others
+              end in
+        (match per inw outw with None -> say "C12" "ok" "sw" | Some why -> say "C12" "FAIL" why)
+    | "ba" | "bw" ->
+        let lim = n_of_dec (f 2) in
+        let inw = if f 0 = "ba" then [dword (f 1)] else dwords (f 1) in
+        let outw = dwords impl in
+        let rec per (ins : word list) (outs : word list) : string option =
+          match ins with
+          | [] -> if outs = [] then None else Some "extra pieces"
+          | w :: rest ->
+              if f 0 = "bw" && n_le w.w_width lim then
+                (match outs with p :: r when p = w -> per rest r | _ -> Some "a word not wider than the limit was changed")
+              else begin
+                (* consume pieces until the word's text is covered *)
+                let rec eat acc outs = if acc = w.w_word && (acc <> [] || w.w_word = []) then Some ([], outs)
+                  else match outs with
+                    | p :: r when is_prefix (acc @ p.w_word) w.w_word && p.w_word <> [] ->
+                        (match eat (acc @ p.w_word) r with Some (ps, rem) -> Some (p :: ps, rem) | None -> None)
+                    | _ -> None in
+                match eat [] outs with
+                | None -> Some "pieces do not concatenate to the word"
+                | Some (mine, others) ->
+                    let bad = ref None in
+                    let np = List.length mine in
+                    let acc = ref [] in
+                    List.iteri
+                      (fun i p ->
+                        if not (top_level !acc) then bad := Some "a cut falls inside an escape sequence";
+                        acc := !acc @ p.w_word;
+                        if not (N.eqb p.w_width (dwm p.w_word)) then bad := Some "cached width of a piece is wrong";
+                        if not (n_le p.w_width lim || nzv p.w_word = 1) then bad := Some "a piece is wider than the limit though it has several non-zero-width characters";
+                        if i < np - 1 then begin
+                          if p.w_ws <> [] || p.w_pen <> [] then bad := Some "inner piece carries whitespace or penalty";
+                          let q = List.nth mine (i + 1) in
+                          (match strip q.w_word with
+                           | c :: _ -> if not (n_lt lim (N.add p.w_width (cw c))) then bad := Some "break is not maximal: the next character would have fitted"
+                           | [] -> bad := Some "a following piece has no visible character")
+                        end else if p.w_ws <> w.w_ws || p.w_pen <> w.w_pen then bad := Some "last piece does not carry whitespace and penalty")
+                      mine;
+                    if w.w_word = [] && mine <> [] then bad := Some "pieces from an empty word";
+                    match !bad with Some b -> Some b | None -> per rest others
+              end in
+        (match per inw outw with None -> say "C12" "ok" (f 0) | Some why -> say "C12" "FAIL" why)
+    | "wrap" ->
+        let o = dopts (f 1) and text = ds (f 2) in
+        let ls = dolines impl in
+        (* C08 *)
+        let ind_ok = List.for_all (fun x -> x) (List.mapi (fun i l -> is_prefix (if i = 0 then o.o_ii else o.o_si) l.txt) ls) in
+        if ind_ok then say "C08" "ok" "" else say "C08" "FAIL" "a line does not start with its indent";
+        (* C01 *)
+        (match c01_check o text ls with
+         | None -> say "C01" "ok" ""
+         | Some why -> say "C01" "FAIL" why);
+        (* C02 *)
+        if o.o_alg = FirstFit && o.o_spl <> SplCustom then begin
+          if wf_strip text = None || wf_strip o.o_ii = None || wf_strip o.o_si = None then say "C02" "skip" "not well-formed"
+          else begin
+            let verdict = ref "ok" and detail = ref "" in
+            List.iteri
+              (fun i l ->
+                let ind = if i = 0 then o.o_ii else o.o_si in
+                if n_lt o.o_width (dwm l.txt) then begin
+                  match strip_prefix ind l.txt with
+                  | None -> ()
+                  | Some body ->
+                      let bodies = body :: (match o.o_spl, List.rev body with
+                                            | SplCustom, c :: rb when N.eqb c hY -> [List.rev rb] | _ -> []) in
+                      let unbreakable b =
+                        if o.o_bw then nzv b <= 1
+                        else (match find_words cw lbc o.o_sep b with
+                              | [] -> true
+                              | [w] -> split_points alnum custom3 o.o_spl w.w_word = []
+                              | _ -> false) in
+                      if List.exists unbreakable bodies then ()
+                      else if n_lt o.o_width (dwm ind) && N.eqb (dwm body) N0 then (if !verdict = "ok" then (verdict := "known"; detail := "IndentWiderThanWidth"))
+                      else if not (List.for_all (additive lbc o) (split_le o.o_le text)) then (if !verdict = "ok" then (verdict := "known"; detail := "CutInsideEscape"))
+                      else (verdict := "FAIL"; detail := Printf.sprintf "line %d is wider than the width and can be narrowed" i)
+                end)
+              ls;
+            say "C02" !verdict !detail
+          end
+        end
+    | "wsl" ->
+        let o = dopts (f 1) and first = (f 2 = "1") and line = ds (f 3) in
+        (match ps with
+         | [fast; slow] ->
+             let ind = if first then o.o_ii else o.o_si in
+             let shortcut = n_lt (blen line) o.o_width && ind = [] in
+             if shortcut && fast <> slow then say "C05" "FAIL" "the byte-length shortcut is observable: fast and slow path differ"
+             else begin
+               let alg_ok = (match o.o_alg with FirstFit -> true | OptimalFit p -> default_pen p) in
+               if alg_ok && n_le (N.add (dwm line) (dwm ind)) o.o_width then begin
+                 let got = List.map (fun l -> l.txt) (dolines slow) in
+                 if got = [ind @ trim_end_sp line] then say "C05" "ok" "fits"
+                 else if not (additive lbc o line) then say "C05" "known" "CutInsideEscape"
+                 else say "C05" "FAIL" "a paragraph that fits was not returned as one unchanged line"
+               end else say "C05" "ok" "shortcut-only"
+             end
+         | _ -> ())
+    | "fills" ->
+        (match ps with
+         | [a; b] -> if a = b then say "C05" "ok" "fill" else say "C05" "FAIL" "fill and its slow path differ"
+         | _ -> ())
+    | "wrap8" ->
+        let o = dopts (f 1) in
+        let ii2 = ds (f 2) and si2 = ds (f 3) in
+        (match ps with
+         | [a; b] ->
+             let la = dolines a and lb = dolines b in
+             if List.length la <> List.length lb then say "C08" "FAIL" "number of lines depends on the indents' characters"
+             else begin
+               let rest ii si ls = List.mapi (fun i l -> strip_prefix (if i = 0 then ii else si) l.txt) ls in
+               let ra = rest o.o_ii o.o_si la and rb = rest ii2 si2 lb in
+               if List.mem None ra || List.mem None rb then say "C08" "FAIL" "a line does not start with its indent"
+               else if ra = rb then say "C08" "ok" "subst" else say "C08" "FAIL" "what follows the indent depends on the indents' characters"
+             end
+         | _ -> ())
+    | "wrap9" ->
+        let o = dopts (f 1) and a = ds (f 2) and b = ds (f 3) in
+        (match ps with
+         | [r1; r2; r3; r4; r5; r6; r7] ->
+             let l1 = dlist r1 and l2 = dlist r2 and l3 = dolines r3 and l4 = dolines r4 in
+             let texts ls = List.map (fun l -> l.txt) ls in
+             let n1 = List.length l1 in
+             let t2 = dolines r2 in
+             let tail2 = texts (drop n1 t2) in
+             let le = le_str o.o_le in
+             let count_le t = List.length (split_le o.o_le t) in
+             let same_prefix = if a = [] then List.map (fun l -> l.txt) (take n1 t2) = List.map (fun l -> l.txt) (dolines r1) else take n1 l2 = l1 in
+             if not same_prefix then say "C09" "FAIL" "wrap(a+ending+b) does not begin with the lines of wrap(a)"
+             else if (let t4 = texts l4 in let k = List.length t4 - List.length tail2 in k < 0 || drop k t4 <> tail2) then
+               say "C09" "FAIL" "the lines after the break depend on the text before it"
+             else if o.o_ii = [] && o.o_si = [] && tail2 <> texts l3 then say "C09" "FAIL" "with empty indents the remaining lines differ from wrap(b)"
+             else if List.length t2 < count_le (a @ le @ b) then say "C09" "FAIL" "fewer output lines than input lines"
+             else if ds r5 <> join le (texts t2) then say "C09" "FAIL" "fill is not wrap's lines joined by the line ending"
+             else if not (List.mem lF o.o_ii || List.mem lF o.o_si)
+                     && ds r7 <> List.concat_map (fun c -> if N.eqb c lF then [cR; lF] else [c]) (ds r6) then
+               say "C09" "FAIL" "switching LF to CRLF changes more than the line endings"
+             else say "C09" "ok" ""
+         | _ -> ())
+    | "wrap13" ->
+        let o = dopts (f 1) and t = ds (f 2) in
+        (match ps with
+         | [a; b] ->
+             if o.o_spl = SplCustom || not (c13_attached (o.o_spl = SplHyphen) t) then say "C13" "skip" "precondition"
+             else begin
+               let la = dolines a and lb = dolines b in
+               let sa = List.map (fun l -> strip l.txt) la and sb = List.map (fun l -> strip l.txt) lb in
+               let cut = List.exists (fun l -> not (top_level l.txt)) la in
+               let seqs_lines = List.concat_map (fun l -> sequences l.txt) la and seqs_text = sequences t in
+               let ind_seqs = List.concat (List.mapi (fun i _ -> sequences (if i = 0 then o.o_ii else o.o_si)) la) in
+               let additive_all = List.for_all (additive lbc o) (split_le o.o_le t) in
+               if sa = sb && not cut && List.length seqs_lines = List.length seqs_text + List.length ind_seqs then say "C13" "ok" ""
+               else if not additive_all then say "C13" "known" "CutInsideEscape"
+               else if cut then say "C13" "FAIL" "an escape sequence is cut in two"
+               else if sa <> sb then say "C13" "FAIL" "removing the sequences from the lines does not give wrap of the stripped text"
+               else say "C13" "FAIL" "a sequence was dropped or duplicated"
+             end
+         | _ -> ())
+    | "fill2" ->
+        let o = dopts (f 1) and t = ds (f 2) in
+        (match ps with
+         | [a; b] ->
+             let r1 = ds a in
+             let builtin = (o.o_spl <> SplCustom) and noind = (o.o_ii = [] && o.o_si = []) in
+             let no_forced () =
+               (not o.o_bw)
+               || List.for_all
+                    (fun p ->
+                      match split_words cw (split_points alnum custom3 o.o_spl) (find_words cw lbc o.o_sep p) with
+                      | Some ws -> List.for_all (fun w -> n_le w.w_width o.o_width) ws
+                      | None -> true)
+                    (split_le o.o_le t) in
+             let sep_ok = (o.o_sep = SepAscii) || no_forced () in
+             let no_overflow = List.for_all (fun l -> n_le (dwm l) o.o_width) (split_le o.o_le r1) in
+             let applies = builtin && noind && sep_ok && (match o.o_alg with FirstFit -> true | OptimalFit _ -> no_overflow) in
+             if not applies then say "C14" "skip" "outside the stated option combinations"
+             else if a = b then say "C14" "ok" "" else say "C14" "FAIL" "fill is not idempotent"
+         | _ -> ())
+    | "unfill" ->
+        (* structural half of C15 *)
+        let t = ds (f 1) in
+        (match split_on '/' impl with
+         | [ut; _w; uii; usi; ule] ->
+             let ut = ds ut and uii = ds uii and usi = ds usi in
+             let nel = List.filter (fun l -> l <> []) (str_lines t) in
+             let pc = List.for_all is_prefix_char in
+             let inner = (match List.rev ut with c :: r when N.eqb c lF -> List.rev r | _ -> ut) in
+             let pieces = split_lf t in
+             let terminated = (match List.rev pieces with _ :: r -> List.rev r | [] -> []) in
+             let no_empty = List.for_all (fun p -> p <> [] && p <> [cR]) terminated in
+             let all_crlf = terminated <> [] && List.for_all (fun p -> match last_opt p with Some c -> N.eqb c cR | None -> false) terminated in
+             if not (pc uii && pc usi) then say "C15" "FAIL" "a returned indent contains a non-prefix character"
+             else if (match nel with l :: _ -> not (is_prefix uii l) | [] -> uii <> []) then say "C15" "FAIL" "initial indent is not a prefix of the first line"
+             else if (match nel with _ :: r -> List.exists (fun l -> not (is_prefix usi l)) r | [] -> false) then say "C15" "FAIL" "subsequent indent is not a prefix of a later line"
+             else if List.mem lF inner then say "C15" "FAIL" "unfilled text contains an inner line break"
+             else if no_empty && ((ule = "crlf") <> all_crlf) then say "C15" "FAIL" "reported line ending is wrong"
+             else say "C15" "ok" "structural"
+         | _ -> say "C15" "FAIL" "unparsable result")
+    | "unfill15" ->
+        let o = dopts (f 1) and words = List.map ds (dlist (f 2)) and tail = (f 3 = "1") in
+        let para = join [sP] words in
+        let le = le_str o.o_le in
+        (match ps with
+         | [filled; u] ->
+             let filled = ds filled in
+             (match split_on '/' u with
+              | [ut; uw; uii; usi; ule] ->
+                  let ut = ds ut and uii = ds uii and usi = ds usi in
+                  let body = if tail then take (List.length filled - List.length le) filled else filled in
+                  let lines = split_le o.o_le body in
+                  let nl = List.length lines in
+                  let wmax = List.fold_left (fun m l -> if n_lt m (dwm l) then dwm l else m) N0 lines in
+                  (* words must not begin with prefix characters: generator guarantees it;
+                     a filled text whose wrapped lines start (after the indent) with a prefix
+                     character would be ambiguous *)
+                  let expect_text = para @ (if tail then le else []) in
+                  if ut <> expect_text then say "C15" "FAIL" "unfill(fill(p)) does not return the paragraph"
+                  else if uii <> o.o_ii then say "C15" "FAIL" "initial indent not recovered"
+                  else if nl >= 2 && usi <> o.o_si then say "C15" "FAIL" "subsequent indent not recovered"
+                  else if nl >= 2 && (ule = "crlf") <> (o.o_le = LE_CRLF) then say "C15" "FAIL" "line ending not recovered"
+                  else if n_of_dec uw <> wmax then say "C15" "FAIL" "width is not the widest line"
+                  else say "C15" "ok" "roundtrip"
+              | _ -> say "C15" "FAIL" "unparsable result")
+         | _ -> ())
+    | "refill16" ->
+        let o1 = dopts (f 1) and o2 = dopts (f 2) and tail = (f 4 = "1") in
+        (match ps with
+         | [filled; r; f3] ->
+             let filled = ds filled in
+             let body = if tail then take (List.length filled - List.length (le_str o1.o_le)) filled else filled in
+             if List.length (split_le o1.o_le body) < 2 then say "C16" "skip" "single line: indents not observable"
+             else if ds r = ds f3 @ (if tail then le_str o2.o_le else []) then say "C16" "ok" ""
+             else say "C16" "FAIL" "refill(fill(t,o1),o2) differs from fill(t, o2 with o1's indents)"
+         | _ -> ())
+    | "fip" ->
+        let t = ds (f 1) in
+        (match ps with
+         | [r; w] ->
+             let r = ds r and wl = List.map (fun l -> l.txt) (dolines w) in
+             if List.length r <> List.length t || blen r <> blen t then say "C17" "FAIL" "length changed"
+             else if List.exists2 (fun a b -> not (a = b || (is_sp a && N.eqb b lF))) t r then say "C17" "FAIL" "changed something other than a space into a newline"
+             else if List.map trim_end_sp (split_lf r) <> wl then say "C17" "FAIL" "lines differ from wrap with the documented options"
+             else say "C17" "ok" ""
+         | _ -> ())
+    | "indent" ->
+        let s = ds (f 1) and p = ds (f 2) in
+        let r = ds impl in
+        if r <> indent_spec s p then say "C19" "FAIL" "not prefix+line for every line"
+        else if p = [] && r <> s then say "C19" "FAIL" "empty prefix changed the text"
+        else if not (List.mem lF p) && List.length (split_lf r) <> List.length (split_lf s) then say "C19" "FAIL" "number of lines changed"
+        else say "C19" "ok" ""
+    | "dedent" ->
+        let s = ds (f 1) in
+        if ds impl = dedent_spec s then say "C18" "ok" "spec" else say "C18" "FAIL" "not the text minus the longest common whitespace margin"
+    | "dedent18" ->
+        let s = ds (f 1) and p = ds (f 2) in
+        (match ps with
+         | [d; dd; di] ->
+             let cr_tail = List.exists (fun l -> match last_opt l with Some c -> N.eqb c cR | None -> false) (str_lines s) in
+             if ds d <> dedent_spec s then say "C18" "FAIL" "not the text minus the longest common whitespace margin"
+             else if d <> dd then (if cr_tail then say "C18" "known" "LineEndsInCR" else say "C18" "FAIL" "dedent is not idempotent")
+             else if not (List.mem cR s) && not (List.mem lF p) && List.for_all is_whitespace p && di <> d then say "C18" "FAIL" "dedent(indent(s,p)) differs from dedent(s)"
+             else say "C18" "ok" ""
+         | _ -> ())
+    | "wc" ->
+        let o = dopts (f 1) and cols = int_of_string (f 3) in
+        let l = ds (f 4) and m = ds (f 5) and r = ds (f 6) in
+        (match ps with
+         | [rows; w] ->
+             let rows = List.map ds (dlist rows) and lines = List.map (fun x -> x.txt) (dolines w) in
+             let inner = N.sub (N.sub (N.sub o.o_width (dwm l)) (dwm r)) (N.mul (dwm m) (n_of_int (cols - 1))) in
+             let colw = (let q = fst (N.div_eucl inner (n_of_int cols)) in if n_lt q n1 then n1 else q) in
+             let lastpad = spaces (snd (N.div_eucl inner colw)) in
+             let n = List.length lines in
+             let nrows = (n + cols - 1) / cols in
+             let larr = Array.of_list lines in
+             let cell rr k = let i = rr + k * nrows in if i < n then larr.(i) @ spaces (N.sub colw (dwm larr.(i))) else spaces colw in
+             let expect = List.init nrows (fun rr -> l @ List.concat (List.init cols (fun k -> cell rr k @ (if k = cols - 1 then lastpad else m))) @ r) in
+             if rows <> expect then say "C20" "FAIL" "rows are not gaps + column-major padded cells of wrap at the column width"
+             else begin
+               let fits = List.for_all (fun x -> n_le (dwm x) colw && top_level x) lines in
+               let plain = not (has_esc l || has_esc m || has_esc r) in
+               let w0 = N.add (N.add (N.add (N.add (dwm l) (dwm r)) (N.mul (n_of_int (cols - 1)) (dwm m))) (N.mul (n_of_int cols) colw)) (snd (N.div_eucl inner colw)) in
+               if fits && plain && List.exists (fun row -> not (N.eqb (dwm row) w0)) rows then say "C20" "FAIL" "rows have different display widths"
+               else say "C20" "ok" ""
+             end
+         | _ -> ())
+    | _ -> ()
+  end
